@@ -46,6 +46,21 @@ HINTS = {
     "format_symbol": "axiom_tok_of_same_token(r, *wanted_symbol);",
     "format_token_reference": "axiom_tok_of_fmt(ctx.config, *token_reference, r);",
 }
+# line safety (prelude/lines.rs): `tok_open` is uninterpreted in the calling units; unit tok proves the same fact over the trailing trivia
+# (`has_line_comment(trail(..))`). The two are linked by the definition of tok_open (an open token has a line comment in its trailing
+# trivia: AXIOM_OPEN, definitional) and by the stated assumption that the token handed in is a token of the parsed input, where "has a line
+# comment behind it" and "open" coincide (no formatter-made newline follows it yet) — ASSUMING below.
+AXIOM_OPEN = """#[verifier::external_body] pub proof fn axiom_open_has_line_comment(t: TokenReference) ensures tok_open(t) ==> has_line_comment(trail(t)) {}
+"""
+OPEN_HINTS = {
+    "format_symbol": "axiom_open_has_line_comment(r);",
+    "format_end_token": "lemma_load_post_line_comment(ctx.config, trail(*current_token), FormatTokenType::TrailingTrivia, trail(r)); axiom_open_has_line_comment(r);",
+}
+OPEN_ASSUMING = {
+    "format_symbol": "has_line_comment(trail(*current_symbol)) ==> tok_open(*current_symbol), has_line_comment(trail(*wanted_symbol)) ==> tok_open(*wanted_symbol)",
+    "format_end_token": "has_line_comment(trail(*current_token)) ==> tok_open(*current_token)",
+}
+OPEN_NOTE = "tok_open(t) is has_line_comment(trail(t)) for the tokens handed in (tokens of the parsed input / fresh symbols: no formatter-made newline behind their comment yet); tok_open(r) ==> has_line_comment(trail(r)) is the definition of tok_open (prelude/lines.rs)"
 ASSUMING = {
     "create_indent_trivia": ("shape.indent.block_indent + shape.indent.additional_indent <= usize::MAX, (shape.indent.block_indent + shape.indent.additional_indent) * ctx.config.indent_width <= usize::MAX",
                              "machine arithmetic: nesting depth x indent width fits a usize (DESIGN.md: assumed in every unit but ctx / Kani shape)"),
@@ -73,13 +88,14 @@ def bridge_text(stub, v):
         call = f"vx_self.{v.name}({', '.join(names)})"
     # the stub's name for the result
     sig2 = re.sub(r"->\s*\(\w+\s*:", "-> (" + (stub.ret or "r") + ":", sig2, count=1)
-    if v.name in ASSUMING:
-        extra = ASSUMING[v.name][0]
+    uses_open = v.name in OPEN_HINTS and "tok_open" in contract
+    if v.name in ASSUMING or uses_open:
+        extra = ASSUMING[v.name][0] if v.name in ASSUMING else OPEN_ASSUMING[v.name]
         contract = (re.sub(r"^\s*requires\b", "requires " + extra + ",", contract, count=1) if re.match(r"\s*requires\b", contract) else "requires " + extra + ",\n" + contract)
     ret = re.search(r"->\s*\((\w+)\s*:", sig2)
     rn = ret.group(1) if ret else "r"
-    hint = HINTS.get(v.name, "")
-    return f"{stub.attrs or ''}pub {sig2.rstrip()}\n{contract}\n{{ let {rn} = {call}; proof {{ {hint} }} {rn} }}\n"
+    hint = HINTS.get(v.name, "") + (" " + OPEN_HINTS[v.name] if uses_open else "")
+    return (AXIOM_OPEN if uses_open else "") + f"{stub.attrs or ''}pub {sig2.rstrip()}\n{contract}\n{{ let {rn} = {call}; proof {{ {hint} }} {rn} }}\n"
 
 def main():
     units = sorted({u for p in registry.PROPS.values() for u in p.get("units", [])})
@@ -128,7 +144,7 @@ def main():
                 rec["status"] = f"not bridged (extract: {str(e)[:80]})"; results.append(rec); continue
             text = open(r["path"]).read().split("\n")
             lo = next((i + 1 for i, l in enumerate(text) if "fn vx_bridge_" + v.name in l), None)
-            if r["status"] == "ok": rec["status"] = "bridged" + (" under the stated assumption: " + ASSUMING[v.name][1] if v.name in ASSUMING else "")
+            if r["status"] == "ok": rec["status"] = "bridged" + (" under the stated assumption: " + ASSUMING[v.name][1] if v.name in ASSUMING else (" under the stated assumption: " + OPEN_NOTE if "axiom_open_has_line_comment" in bt else ""))
             elif r["compile_errors"]:
                 msgs = "; ".join((e.get("message") or "")[:70] for e in r["compile_errors"][:2])
                 rec["status"] = "not bridged (vocabulary / types: " + msgs + ")"
